@@ -10,7 +10,10 @@ property -> theorem files (of other properties) whose statements its own model c
 generated code reaches through their TRANSLATED definitions need no entry: the caller's proof file imports the callee's
 proof file, so the build dependency closure already attributes a broken callee tie to the caller.
 """
+TABLES = "Props/C03_tables.v"      # the prefix / mask dictionaries the network parser, NOHOST and the netmask setter look things up in
 CALLEE_TIES = {
+    "C02": [TABLES],
+    "C14": [],
     # SubnetSplitter: cidr_merge (py_cidr_merge), list(cidr.subnet(..)) (py_list_subnet); cidr_exclude is reached translated
     "C20": ["Props/C05_src_merge.v", "Props/C11_src_subnet.v"],
     # IPSet mutators: cidr_merge (py_cidr_merge), IPNetwork.previous / next (py_net_previous / py_net_next), sorted() over
@@ -19,7 +22,7 @@ CALLEE_TIES = {
     # IPSet queries / sweeps: sorted(), IPRange(start, end) (py_iprange), cidr_merge behind update / union
     "C07": ["Props/C05_src_merge.v", "Props/C12_src_cmp.v", "Props/C12_src_state.v"],
     # matching helpers: sorted() over IPNetwork.__lt__
-    "C04": ["Props/C12_src_cmp.v"],
+    "C04": ["Props/C12_src_cmp.v", "Props/C03_src.v", "Props/C01_src_ctor.v"],      # .. and the text fallbacks `IPNetwork(other) in self` / `IPAddress(other) in self`
     # cidr_merge / iprange_to_cidrs / spanning_cidr / cidr_partition: IPNetwork(ip) of each argument (constructor, parser)
     "C05": ["Props/C03_src.v"],
     "C09": ["Props/C03_src.v"],
@@ -31,7 +34,7 @@ CALLEE_TIES = {
     # glob / nmap: IPAddress(text), IPRange(text, text), IPNetwork(text), iteration over a network
     "C17": ["Props/C01_src_ctor.v", "Props/C01_src.v", "Props/C12_src_state.v", "Props/C03_src.v", "Props/C10_src_iter.v"],
     # the network parser: the per-family str_to_int / int_to_str and the IPAddress constructor
-    "C03": ["Props/C01_src.v", "Props/C01_src_ctor.v", "Props/C14_src_ctor.v"],
+    "C03": [TABLES, "Props/C01_src.v", "Props/C01_src_ctor.v", "Props/C14_src_ctor.v"],
     # pickled state / comparisons of objects built by the constructors
     "C12": ["Props/C14_src_ctor.v"],
     # indexing / iteration results are IPAddress(int, version)
@@ -42,3 +45,6 @@ CALLEE_TIES = {
     # EUI.ipv6 / ipv6_link_local build an IPAddress
     "C08": ["Props/C14_src_ctor.v"],
 }
+for _p, _fs in CALLEE_TIES.items():          # whoever relies on the network parser relies on its tables
+    if "Props/C03_src.v" in _fs and TABLES not in _fs:
+        _fs.append(TABLES)
